@@ -25,6 +25,8 @@ func Run(o *drv.Out) {
 	CorpusHighQcOneHash(o, "results")
 	CorpusLockFromOtherPhase(o, "propose")
 	CorpusLockFromOtherPhase(o, "election-vote")
+	CorpusCommitteeChange(o, "lock-carried-over")
+	CorpusCommitteeChange(o, "bitmap-for-other-committee")
 	// randomised members of the re-lock family (roles, leaders, gaps); many more when an obligation broke
 	nRelock := 6
 	if o.Tier == "thorough" {
@@ -147,6 +149,12 @@ func randomCase(o sink, rng *rand.Rand, tier string, search bool, k int) {
 		lvl = levels[2+rng.Intn(len(levels)-2)]
 	}
 	cfg := bftsim.Config{N: n, Powers: powers, Byz: byz, Root0: uint64(10 + rng.Intn(3)), Salt: rng.Uint64() % 1_000_000, KeySeed: 0}
+	if rng.Intn(2) == 0 { // every later root height lists the same committee in another order
+		cfg.CommitteeOrder = map[uint64][]int{}
+		for h := cfg.Root0 + 1; h < cfg.Root0+6; h++ {
+			cfg.CommitteeOrder[h] = rng.Perm(n)
+		}
+	}
 	r := newRun(o, fmt.Sprintf("rand/%d/%s/n%d/byz%v", k, lvl.name, n, byz), cfg)
 	defer func() {
 		atomic.AddInt64(&totalSign, int64(r.s.NSign))
